@@ -192,10 +192,82 @@ def lookups_ok(tr, lineage=True):
     return True, ""
 
 
+def replay_query(inp, ob):
+    tr = build_real(inp)
+    g = tr.graph
+    a = inp["args"]
+    if ob.startswith("C06.track_neighbors") or ob == "C06.has_track_id_at_time":
+        k, t = a["k"], a["t"]
+        on = [n for n in g.nodes() if g.nodes[n][TID] == k]
+        before = [n for n in on if g.nodes[n][T] < t]
+        after = [n for n in on if g.nodes[n][T] > t]
+        want_pred = max(before, key=lambda n: g.nodes[n][T]) if before else None
+        want_succ = min(after, key=lambda n: g.nodes[n][T]) if after else None
+        if ob == "C06.has_track_id_at_time":
+            r = tr.has_track_id_at_time(k, t)
+            want = any(g.nodes[n][T] == t for n in on)
+            return bool(r) != want, f"has_track_id_at_time({k},{t}) = {r}, scan says {want}"
+        pred, succ = tr.get_track_neighbors(k, t)
+        if ob.endswith("pred"):
+            return pred != want_pred, f"get_track_neighbors({k},{t}) pred={pred}, scan says {want_pred}"
+        return succ != want_succ, f"get_track_neighbors({k},{t}) succ={succ}, scan says {want_succ}"
+    if ob.startswith("C06.new_node_ids") or ob == "C06.counter_moves_past_issued_ids":
+        tr.node_id_counter = a["counter"]
+        before = set(g.nodes())
+        ids = tr._get_new_node_ids(a["n"])
+        detail = f"counter={a['counter']} n={a['n']} nodes={sorted(before)} -> ids={ids} counter={tr.node_id_counter}"
+        if ob == "C06.new_node_ids_unused":
+            return any(i in before for i in ids), detail
+        if ob == "C06.new_node_ids_distinct":
+            return len(set(ids)) != len(ids), detail
+        return any(tr.node_id_counter <= i for i in ids), detail
+    if ob == "C06.next_ids_unused":
+        nt, nl = tr.get_next_track_id(), tr.get_next_lineage_id()
+        bad = any(g.nodes[n][TID] == nt or g.nodes[n][LID] == nl for n in g.nodes())
+        return bad, f"next track id {nt}, next lineage id {nl}"
+    return False, "no oracle"
+
+
+def replay_construct(inp, ob):
+    from funtracks.data_model import SolutionTracks
+
+    N = inp["N"]
+    g = nx.DiGraph()
+    for i in range(N):
+        if inp["alive"][i]:
+            g.add_node(i + 1, **{T: inp["t"][i], POS: [float(i), 0.0]})
+    for i in range(N):
+        for j in range(N):
+            if inp["adj"][i][j]:
+                g.add_edge(i + 1, j + 1)
+    edges0 = set(g.edges())
+    tr = SolutionTracks(g, ndim=3, time_attr=T, tracklet_attr=TID, lineage_attr=LID)
+    g1 = tr.graph
+    detail = f"edges={sorted(edges0)} ids={ {n: (d.get(TID), d.get(LID)) for n, d in g1.nodes(data=True)} }"
+    if ob == "C04.partition_after_construction":
+        return (not partition_ok(g1, TID, tracklet_components(g1))), detail
+    if ob == "C05.partition_after_construction":
+        return (not partition_ok(g1, LID, list(nx.weakly_connected_components(g1)))), detail
+    if ob == "C06.lookups_after_construction":
+        ok, why = lookups_ok(tr, True)
+        return (not ok), detail + " " + why
+    if ob == "C16.construction_keeps_graph":
+        return set(g1.edges()) != edges0, detail
+    return False, "no oracle"
+
+
 def replay(failure):
     """returns (reproduced: bool, detail: str)"""
     inp = failure["inputs"]
     ob = failure["obligation"]
+    if inp.get("action") == "query":
+        with warnings.catch_warnings():
+            warnings.simplefilter("ignore")
+            return replay_query(inp, ob)
+    if inp.get("action") == "construct":
+        with warnings.catch_warnings():
+            warnings.simplefilter("ignore")
+            return replay_construct(inp, ob)
     with warnings.catch_warnings():
         warnings.simplefilter("ignore")
         tr = build_real(inp)
